@@ -12,6 +12,7 @@ from lib import log
 from props import register
 sys.path.insert(0, os.path.join(lib.ROOT, "translate"))
 import gen_visit_table
+import gen_ancestor_walks
 import corpus as corpus_mod
 
 # --------------------------------------------------------------------------------------------------------------
@@ -697,6 +698,7 @@ def c08(ctx):
         "C08 is PARTIAL: 'the verdict of the rule depends only on the local piece of syntax' (equivariant / neutral in Traverse/VisitTraverse.v) is an assumption about each rule listed in context_free_rules; what is proved is the traversal mechanism (swc Visit with overrides; the generic Handler driver with the stop flag) and, per run, the generated-table obligations that instantiate its hypotheses",
         "swc's generated default `visit_*` methods visit every child in order, `node.children()` of deno_ast::view yields every child, and `noop_visit_type!()` only disables pure type syntax (modelled, not verified; no hole of the nesting differential is inside a type)",
         "the translator translate/gen_visit_table.py is a token-level scanner: unconditional `<param>.visit_children_with(self)` at the top level of the body with no earlier return/? => recurses; no visit call at all => does not; everything else is unknown and fails the obligation unless it is in the commented, body-hash-pinned allow-list of the translator (entries justified by reading the code)",
+        "ancestor walks (Traverse/AncestorWalk.v): a path is the list of the KINDS of the ancestors; the translator translate/gen_ancestor_walks.py is a token-level scanner -- a function is an ancestor walk iff its own text contains `.parent()`/`.ancestors()`, its boundary set is the set of function-like view kinds its body mentions (read once per walk, pinned by sha1: every such mention is an unconditional stop; ClassProp/PrivateProp of no-this-before-super stop iff the start is in the initializer); which constructs a rule must stop at (categories async / function-root / this / return) is a judgement recorded in the translator and, independently, in category_constructs; computed keys and parameter defaults are not separate constructs (a parameter default meets the chain without its BlockStmt)",
         "the order in which one rule pushes its diagnostics (pre- vs post-order) is not modelled: the pipeline sorts by position afterwards (C02/C03)",
         "HandlerTraverse: the number and order of handler calls is not observable through the public API; validated are the model's observable consequences (no `assert!(!stop_traverse)` panic on any generated program with all rules on one shared Context; Handler based rules report nested constructs exactly once at shifted positions) and, textually on every run, the shape of Traverse::traverse / TraverseFlow and the absence of stop_traverse in any on_exit_node",
     ]
@@ -711,12 +713,27 @@ def c08(ctx):
     except Exception as e:   # noqa
         ctx.obligation("translator: coq/Gen/VisitTable.v regenerated from src/rules/*.rs", False, repr(e))
         return
+    # ancestor walks (`.parent()` loops that look for a function boundary): coq/Gen/AncestorWalks.v, obligations in Traverse/AncestorWalk.v
+    try:
+        aw = gen_ancestor_walks.generate()
+        aw_problems = gen_ancestor_walks.problems(aw)
+        fb = [r for r in aw["walks"] if r["cls"] == "function-boundary"]
+        ctx.obligation("translator: coq/Gen/AncestorWalks.v regenerated from src/**/*.rs (+ dprint-swc-ext view/generated.rs): %d ancestor walks in %d rules, "
+                       "%d of them function-boundary walks, every walk classified and its text unchanged since it was read, every function-boundary "
+                       "walk meets the chain of each required construct" % (len(aw["walks"]), len({r["rule"] for r in aw["walks"]}), len(fb)),
+                       not aw_problems and len(fb) >= 7, "\n".join(aw_problems) or "suspiciously few function-boundary walks: %d" % len(fb))
+        for r in fb:
+            for g in r["stale_gaps"]:
+                ctx.notes.append("ancestor walk %s %s now stops at `%s` (known gap %s is stale): remove it from CLASSIFIED of translate/gen_ancestor_walks.py "
+                                 "and from known_gaps of coq/Traverse/AncestorWalk.v" % (r["rule"], r["fn"], g, r["gaps"][g]))
+    except Exception as e:   # noqa
+        ctx.obligation("translator: coq/Gen/AncestorWalks.v regenerated from src/**/*.rs", False, repr(e))
     claimed = coq_context_free_rules()
     tested = sorted({p[0] for p in PAIRS})
     ctx.obligation("context_free_rules of Traverse/TableFacts.v == rules exercised by the nesting differential (%d rules, %d constructs)" % (len(tested), len(PAIRS)),
                    claimed == tested, "only in Coq: %s; only in the differential: %s" % (sorted(set(claimed or []) - set(tested)), sorted(set(tested) - set(claimed or []))))
     # ---------------------------------------------------------------- (b) proofs
-    ctx.proof_stage("C08", ["Traverse/VisitTraverse.vo", "Traverse/HandlerTraverse.vo", "Traverse/TableFacts.vo"])
+    ctx.proof_stage("C08", ["Traverse/VisitTraverse.vo", "Traverse/HandlerTraverse.vo", "Traverse/TableFacts.vo", "Traverse/AncestorWalk.vo"])
     cf = set(tested)
     unknown_cf = [(r["rule"], r["visitor"], r["method"], r["reason"]) for r in table["visit_table"] if r["rule"] in cf and r["cls"] == "unknown"]
     nonrec_cf = sorted({(r["rule"], r["method"]) for r in table["visit_table"] if r["rule"] in cf and r["cls"] == "none"})
